@@ -302,6 +302,9 @@ func genPageCase(t *rapid.T, o pageGenOpts) PageCase {
 			}
 			rows = append(rows, row)
 		}
+		if o.emptyRows && chancePct(t, 40, "trailingempty") {
+			rows = append(rows, "") // content that ends in a line break
+		}
 		c.Vals = append(c.Vals, PVal{"sink", strings.Join(rows, "\n"), 0})
 	}
 	if c.Size == 0 {
